@@ -5,7 +5,8 @@ read_string, read_sym, read_op, read_list, kg_read, kg_read_array, peek_adverb, 
 read_sys_comment) and the recursive-descent parser in interpreter.py (prog, _expr, _factor, _read_fn_args, _apply_adverbs).
 The program text is symbolic: every position is a symbolic index into the token alphabet (vt.symtext).
 """
-import sys
+import sys, os
+_REPO = os.environ.get("VT_REPO", "/repo")
 from vt.world import enter, verdict, cfg, CFG, pick, cut
 from vt.symtext import SymText, ALPHA, SUB
 from klongpy import KlongInterpreter
@@ -242,7 +243,7 @@ def symtext_gate():
     """every line of the repository's .kg sources parses identically from str and from SymText (concrete positions)"""
     import glob
     lines = []
-    for f in sorted(glob.glob("/repo/tests/kgtests/language/*.kg") + glob.glob("/repo/klongpy/lib/*.kg")):
+    for f in sorted(glob.glob(_REPO + "/tests/kgtests/language/*.kg") + glob.glob(_REPO + "/klongpy/lib/*.kg")):
         for ln in open(f, encoding="utf-8", errors="replace").read().split("\n"):
             if ln.strip():
                 lines.append(ln)
